@@ -581,3 +581,202 @@ pub fn spellings<Q: Qx>(thorough: bool) -> Vec<CellDef> {
     }
     cells
 }
+
+/// Q8E0 only: the quire is 32 bits wide, so its *whole* state space can be enumerated, not just seed states.
+/// quick: two lattices (every upper half x 16 lower halves, 16 upper halves x every lower half);
+/// thorough: all 2^32 bit images. Per state: is_zero / is_nar / to_posit / bit image (C04) and
+/// neg / clear / from_bits(to_bits) / into_two / into_three (C12); plus one step from every lattice state
+/// with a thinned product alphabet (C04).
+pub fn q8_state_space<Q: Qx>(thorough: bool) -> Vec<CellDef> {
+    assert_eq!(Q::W, 32);
+    const MENU: [u32; 16] = [0, 1, 2, 3, 0x7fff, 0x8000, 0x8001, 0xfffe, 0xffff, 0x5555, 0xaaaa, 0x00ff, 0xff00, 0x0100, 0x4000, 0xc000];
+    let lat = |i: u64| -> u32 {
+        let (half, r) = (i >> 20, i & 0xf_ffff);
+        let (all, m) = ((r >> 4) as u32, MENU[(r & 15) as usize]);
+        if half == 0 {
+            all << 16 | m
+        } else {
+            m << 16 | all
+        }
+    };
+    let state_space = move || -> Space {
+        if thorough {
+            Space::all(32)
+        } else {
+            Space::func(1 << 21, "Q8E0 state lattice: every upper half x 16 lower halves + 16 upper halves x every lower half (2^21 of the 2^32 bit images)", move |i| lat(i) as u128)
+        }
+    };
+    let st = |k: u128| -> W512 { sext([(k as u32) as u64, 0, 0, 0, 0, 0, 0, 0], 32) };
+    let mut v = vec![];
+    v.push(CellDef::new("C04", format!("{}/observe(state space)", Q::NAME), state_space(), move |k| {
+        let w = st(k);
+        let s = decode_state::<Q>(&w);
+        let got = guard(|| observe(&Q::from_w(&w)));
+        Out::cmp(got, expect::<Q>(s), round_state::<Q>(s).1).ops(4)
+    }));
+    v.push(CellDef::new("C12", format!("{}/neg_clear_bits_split(state space)", Q::NAME), state_space(), move |k| {
+        let w = st(k);
+        let s = decode_state::<Q>(&w);
+        let negw = match s {
+            M::Val(v) => v.neg(),
+            _ => nar_image(Q::W),
+        };
+        let (p1, _) = round_state::<Q>(s);
+        let s1 = m_add::<Q>(s, single::<Q>(p1), false);
+        let (p2, _) = round_state::<Q>(s1);
+        let s2 = m_add::<Q>(s1, single::<Q>(p2), false);
+        let (p3, _) = round_state::<Q>(s2);
+        let split_defined = !(s1 == M::Out || s2 == M::Out || s == M::Nar);
+        let got = guard(|| {
+            let mut q = Q::from_w(&w);
+            let rt = q.to_w() == w && q.t_roundtrip_bits() == w;
+            q.neg();
+            let n1 = q.to_w();
+            let mut q2 = Q::from_w(&w);
+            q2.t_neg();
+            let n2 = q2.to_w();
+            q.clear();
+            let c1 = q.to_w().is_zero() && q.is_zero();
+            q2.t_clear();
+            let c2 = q2.to_w().is_zero();
+            let mut r = (n1.0[0] as u32 as u128) | ((n1 == n2) as u128) << 32 | (rt as u128) << 33 | (c1 as u128) << 34 | (c2 as u128) << 35;
+            if split_defined {
+                let (a1, a2) = Q::from_w(&w).into_two();
+                let (b1, b2, b3) = Q::from_w(&w).into_three();
+                r |= (a1.tb() as u128 & 0xff) << 40 | (a2.tb() as u128 & 0xff) << 48 | (b3.tb() as u128 & 0xff) << 56 | ((a1.tb() == b1.tb() && a2.tb() == b2.tb()) as u128) << 64;
+            }
+            r
+        });
+        let mut want = (negw.0[0] as u32 as u128) | 0xf << 32;
+        if split_defined {
+            want |= (p1 as u128) << 40 | (p2 as u128) << 48 | (p3 as u128) << 56 | 1 << 64;
+        }
+        Out::cmp(got, want, true).ops(10)
+    }));
+    // one step from every lattice state
+    let al: Vec<u32> = thin(&alphabet(8, 0, false), if thorough { 2 } else { 9 });
+    let na = al.len() as u64;
+    let ns: u64 = 1 << 21;
+    v.push(CellDef::new(
+        "C04",
+        format!("{}/product(state lattice)", Q::NAME),
+        Space::func(ns * na * na * 2, format!("2^21 lattice states x alphabet^2 ({} operands) x {{+=,-=}}", na), move |i| {
+            let plus = i & 1;
+            let j = i >> 1;
+            let (si, a, b) = (j / (na * na), al[((j / na) % na) as usize], al[(j % na) as usize]);
+            (lat(si) as u128) << 68 | (plus as u128) << 64 | (a as u128) << 32 | b as u128
+        }),
+        move |k| {
+            let w = st(k >> 68);
+            let plus = (k >> 64) & 1 == 1;
+            let (a, b) = vpcore::k2(k);
+            let before = decode_state::<Q>(&w);
+            let after = m_add::<Q>(before, prod::<Q>(a, b), plus);
+            if after == M::Out {
+                return Out::skip();
+            }
+            let got = guard(|| {
+                let mut q = Q::from_w(&w);
+                if plus {
+                    q.add_prod(p_of::<Q>(a), p_of::<Q>(b))
+                } else {
+                    q.sub_prod(p_of::<Q>(a), p_of::<Q>(b))
+                }
+                observe(&q)
+            });
+            Out::cmp(got, expect::<Q>(after), nontrivial::<Q>(before, after)).ops(5)
+        },
+    ));
+    v
+}
+
+/// window lattice over the quire's state space: every value of a `hb`-bit head placed at every bit position,
+/// with the bits below it all zero / all one, both signs. A `to_posit`, `neg` or split defect that needs a
+/// particular bit pattern next to the leading bit (at any magnitude) is inside this space.
+pub fn window_states<Q: Qx>(thorough: bool) -> Vec<CellDef> {
+    let hb: u32 = if thorough { 18 } else { 13 };
+    let w = Q::W;
+    let npos = (w - 1) as u64;
+    let len = npos * (1u64 << hb) * 4;
+    let mk = move |i: u64| -> W512 {
+        let (sgn, fill) = (i & 1, (i >> 1) & 1);
+        let r = i >> 2;
+        let head = r & ((1 << hb) - 1);
+        let sh = (r >> hb) as u32;
+        let head = head & ((1u64 << (w - 1 - sh).min(hb)) - 1); // keep the head below bit w-1
+        let mut v = W512::from_shifted(head as u128, sh).unwrap();
+        if fill == 1 && sh > 0 {
+            v = v.add(W512::from_shifted(1, sh).unwrap().sub(W512([1, 0, 0, 0, 0, 0, 0, 0])));
+        }
+        // keep inside the range: drop anything at or above bit w-1
+        let v = sext({
+            let mut l = v.0;
+            let top = (w - 1) as usize;
+            if w < 512 {
+                l[top / 64] &= (1u64 << (top % 64)) - 1;
+                for x in l.iter_mut().skip(top / 64 + 1) {
+                    *x = 0;
+                }
+            } else {
+                l[7] &= (1u64 << 63) - 1;
+            }
+            l
+        }, w);
+        if sgn == 1 {
+            v.neg()
+        } else {
+            v
+        }
+    };
+    let desc = format!("window lattice: {}-bit head (all values) at every one of {} bit positions x low fill {{0s, 1s}} x sign", hb, npos);
+    let mut v = vec![];
+    let d1 = desc.clone();
+    v.push(CellDef::new("C04", format!("{}/observe(window lattice)", Q::NAME), Space::func(len, d1, |i| i as u128), move |k| {
+        let wv = mk(k as u64);
+        let s = decode_state::<Q>(&wv);
+        let got = guard(|| observe(&Q::from_w(&wv)));
+        Out::cmp(got, expect::<Q>(s), round_state::<Q>(s).1).ops(4)
+    }));
+    v.push(CellDef::new("C12", format!("{}/neg_clear_bits_split(window lattice)", Q::NAME), Space::func(len, desc, |i| i as u128), move |k| {
+        let wv = mk(k as u64);
+        let s = decode_state::<Q>(&wv);
+        let negw = match s {
+            M::Val(v) => v.neg(),
+            _ => nar_image(Q::W),
+        };
+        let (p1, _) = round_state::<Q>(s);
+        let s1 = m_add::<Q>(s, single::<Q>(p1), false);
+        let (p2, _) = round_state::<Q>(s1);
+        let s2 = m_add::<Q>(s1, single::<Q>(p2), false);
+        let (p3, _) = round_state::<Q>(s2);
+        let split_defined = !(s1 == M::Out || s2 == M::Out || s == M::Nar);
+        let got = guard(|| {
+            let mut q = Q::from_w(&wv);
+            let rt = q.to_w() == wv && q.t_roundtrip_bits() == wv;
+            q.neg();
+            let n1 = q.to_w();
+            let mut q2 = Q::from_w(&wv);
+            q2.t_neg();
+            let n2 = q2.to_w();
+            q.clear();
+            let c1 = q.to_w().is_zero() && q.is_zero();
+            q2.t_clear();
+            let c2 = q2.to_w().is_zero();
+            let mut r = ((hash_w(&n1) as u32) as u128) | ((n1 == n2) as u128) << 32 | (rt as u128) << 33 | (c1 as u128) << 34 | (c2 as u128) << 35;
+            if split_defined {
+                let (a1, a2) = Q::from_w(&wv).into_two();
+                let (b1, b2, b3) = Q::from_w(&wv).into_three();
+                let f = |x: u32| -> u128 { (x as u128).wrapping_mul(0x9e37_79b9) & 0xff_ffff };
+                r |= f(a1.tb()) << 40 | f(a2.tb()) << 64 | f(b3.tb()) << 88 | ((a1.tb() == b1.tb() && a2.tb() == b2.tb()) as u128) << 36;
+            }
+            r
+        });
+        let mut want = ((hash_w(&negw) as u32) as u128) | 0xf << 32;
+        if split_defined {
+            let f = |x: u32| -> u128 { (x as u128).wrapping_mul(0x9e37_79b9) & 0xff_ffff };
+            want |= f(p1) << 40 | f(p2) << 64 | f(p3) << 88 | 1 << 36;
+        }
+        Out::cmp(got, want, true).ops(10)
+    }));
+    v
+}
